@@ -341,6 +341,7 @@ package fit
 
 //@ func (d *decoder) parseDefinitionMessage(recordHeader byte) (res *defmsg, err error)
 //@   props C01 C10 C11 C13
+//@   slow framepos 90
 //@   ensures [not-clean-eof] !iserr(err, errReadSize)
 //@   locals rangeindex int, dm *defmsg
 //@   requires inv_bytes(d) && inv_io(d)
@@ -612,6 +613,7 @@ package fit
 //@ func (d *decoder) decode(r io.Reader, headerOnly bool, fileIDOnly bool, crcOnly bool) (err error)
 //@   props C01 C10 C11
 //@   slow bounded-frame 90
+//@   slow exact-frame 90
 //@   requires [reader] r != nil
 //@   requires [fresh] fresh_decoder(d)
 //@@ C10 is stated on the conserved quantity framepos (= bytes delivered minus bytes accounted for); the
